@@ -99,6 +99,8 @@ class C19(Check):
         # archive names as typed: with and without .7z, stems that contain dots
         small = {"root": {"kind": "dir", "name": "root", "mode": 0o755, "mtime_ns": 10 ** 18, "children": [
             {"kind": "file", "name": "f.txt", "data": ["hex", "6869"], "mode": 0o644, "mtime_ns": 10 ** 18},
+            {"kind": "file", "name": "epoch.dat", "data": ["hex", "30"], "mode": 0o600, "mtime_ns": 0},
+            {"kind": "file", "name": "locked.bin", "data": ["hex", "31"], "mode": 0o000, "mtime_ns": 10 ** 18 + 7000},
             {"kind": "dir", "name": "d", "mode": 0o750, "mtime_ns": 10 ** 18, "children": []}]}, "links": [], "arcname": None, "password": None,
             "entry": "writeall", "source": "relative"}
         for stem in ("t", "backup.2024", "v1.2.3", "site.tar", ".hidden", "x.7z.old", "a b"):
@@ -204,6 +206,9 @@ class C19(Check):
                     out.violate({"cmd": "x", "kind": "tree-content-differs", "what": want[p][0]}, observed={"path": p}, expected="same kind/bytes/link text")
                 elif want[p][0] in ("file", "dir") and want[p][2] != got[p][2]:
                     out.violate({"cmd": "x", "kind": "tree-mode-differs", "what": want[p][0]}, observed={"path": p, "got": oct(got[p][2])}, expected=oct(want[p][2]))
+                elif want[p][0] == "file" and abs(want[p][3] - got[p][3]) > 5000:
+                    # regular files are not touched after extraction: the restored mtime agrees to within 5 microseconds
+                    out.violate({"cmd": "x", "kind": "tree-mtime-differs", "epoch": want[p][3] < 10 ** 10}, observed={"path": p, "got": got[p][3]}, expected=want[p][3])
         # a
         if case["append"] != "none":
             with py7zr.SevenZipFile(apath) as z:
